@@ -26,7 +26,13 @@ def make_check(prop, oracle, nontrivial):
             res.label('calc-raised:' + type(o.error).__name__)      # classification is C14's business
             return res
         if not sched.complete(o):
-            res.label('result-incomplete')                           # C06's business
+            res.label('result-incomplete')                           # mainly C06's business
+            if prop == 'C09':
+                # a dependency whose end has no dates cannot be met
+                missing = [i for i in o.m.order if o.T[i] is None or o.T[i]['start'] is None or o.T[i]['end'] is None]
+                linked = [i for i in missing if o.m.preds[i] or o.m.succs[i]]
+                if linked:
+                    res.v('C09:dependency-involves-a-task-without-dates', dict(tasks=linked))
             return res
         facts = collections.Counter()
         oracle(o, res.v, facts)
